@@ -499,6 +499,10 @@ pub struct ConvCase {
     /// 0 none, 1 -v, 2 -q, 3 -vv: what is written does not depend on how much is said
     #[serde(default)]
     pub verbosity: u8,
+    /// blp convert only: the paths carry the neutral extension .dat and the formats are named with
+    /// --input-format blp / --output-format <fmt> ("auto-detected from extension if not specified")
+    #[serde(default)]
+    pub explicit_format: bool,
 }
 
 fn cmdline(args: &[String]) -> String {
@@ -543,12 +547,20 @@ pub fn run_conv(check: &Check, c: &ConvCase) -> Result<(), Fail> {
     let job = &c.job;
     let cmd = job.cmd();
     let base = fixtures::base(&c.base).map_err(|e| Fail::new("harness:fixture-failed", format!("{}: {e}", c.base)))?;
-    let input = job.input_rel();
+    let explicit = c.explicit_format && matches!(job, Job::BlpToImage { .. } | Job::ImageToBlp { .. });
+    let input = match (explicit, job) {
+        (true, Job::BlpToImage { .. }) => "in/tex.dat",
+        _ => job.input_rel(),
+    };
     match c.damage.apply(&base) {
         Some(b) => sb.write(input, &b),
         None => {}
     }
-    let out_rel = job.output_rel();
+    let out_rel = match (explicit, job) {
+        (true, Job::BlpToImage { .. }) => "out/tex.dat".to_string(),
+        (true, Job::ImageToBlp { .. }) => "out/img.dat".to_string(),
+        _ => job.output_rel(),
+    };
     let exp_rel = out_rel.replacen("out/", "exp/", 1);
     let lib = if matches!(c.damage, Damage::Missing) { Verdict::Rejects("file does not exist".into()) } else { ask(Ask::Produce { job: job.clone(), out: sb.path(&exp_rel).to_string_lossy().to_string() }, &sb.path(input)) };
     let expected: Option<Vec<u8>> = match &lib {
@@ -569,7 +581,20 @@ pub fn run_conv(check: &Check, c: &ConvCase) -> Result<(), Fail> {
     if let Some(s) = &stale {
         sb.write(&out_rel, s);
     }
-    let args = job.args(c.order, c.verbosity);
+    let args = if explicit {
+        let (w, _, mut g) = job.parts();
+        match job {
+            Job::BlpToImage { ext, .. } => {
+                g.push(vec!["--input-format".to_string(), "blp".to_string()]);
+                g.push(vec!["--output-format".to_string(), ext.clone()]);
+            }
+            _ => g.push(vec!["--output-format".to_string(), "blp".to_string()]),
+        }
+        g.extend(verbosity_group(c.verbosity));
+        arrange(&w, &[input.to_string(), out_rel.clone()], &g, c.order)
+    } else {
+        job.args(c.order, c.verbosity)
+    };
     let run = sb.run(&args);
     let exit0 = run.ok();
     let lib_s = match &lib {
@@ -578,7 +603,7 @@ pub fn run_conv(check: &Check, c: &ConvCase) -> Result<(), Fail> {
         Verdict::Crashed(_) => "crash",
     };
     let fam = c.base.split(':').next().unwrap_or("");
-    let class = format!("p3:conv:{}:{fam}:{}:{}:stale{}:ord{}:v{}:lib-{lib_s}:exit{}", job.kind(), job.describe(), c.damage.kind(), c.prefill, (c.order != 0) as u8, c.verbosity % 4, if exit0 { "0" } else { "nz" });
+    let class = format!("p3:conv:{}:{fam}:{}:{}:stale{}:ord{}:v{}:x{}:lib-{lib_s}:exit{}", job.kind(), job.describe(), c.damage.kind(), c.prefill, (c.order != 0) as u8, c.verbosity % 4, explicit as u8, if exit0 { "0" } else { "nz" });
     let judged = exit0 && expected.is_some();
     check.count(&class, judged);
     check.sample(&format!("p3:conv:{}:{}", job.kind(), c.damage.kind()), || json!({"part": "conv", "case": c, "library": lib_s, "exit0": exit0}));
@@ -598,6 +623,9 @@ pub fn run_conv(check: &Check, c: &ConvCase) -> Result<(), Fail> {
                 }
                 if c.prefill == 1 && !is_image_out {
                     check.bump("p3:over-same-size-result", 1);
+                }
+                if explicit {
+                    check.bump("p3:judged:blp:convert:explicit-format", 1);
                 }
                 match (sb.read(&out_rel), &expected) {
                     (None, _) => fails.push(Fail::new(format!("exit0-without-output:{cmd}"), format!("{} — {out_rel} was not written", ctx()))),
@@ -723,7 +751,7 @@ pub fn conv_grid(thorough: bool) -> Vec<ConvCase> {
     let mut push = |v: &mut Vec<ConvCase>, job: Job, base: &str| {
         k += 1;
         // prefill and arrangement cycle independently of the other dimensions
-        v.push(ConvCase { job, base: base.to_string(), damage: Damage::None, prefill: (k % 4) as u8, order: if k % 3 == 0 { (k % 251) as u16 + 1 } else { 0 }, verbosity: if k % 5 < 2 { 0 } else { (k % 5 - 1) as u8 } });
+        v.push(ConvCase { job, base: base.to_string(), damage: Damage::None, prefill: (k % 4) as u8, order: if k % 3 == 0 { (k % 251) as u16 + 1 } else { 0 }, verbosity: if k % 5 < 2 { 0 } else { (k % 5 - 1) as u8 }, explicit_format: k % 7 == 3 });
     };
     let s = |x: &str| x.to_string();
     let keep = |i: usize, j: usize, bases: usize| thorough || (i + j) % bases.max(1) == 0 || j == i % 3;
@@ -825,6 +853,7 @@ pub fn conv_strategy() -> impl proptest::strategy::Strategy<Value = ConvCase> + 
         c.prefill = prefill;
         c.order = order;
         c.verbosity = verbosity;
+        c.explicit_format = gi % 5 == 0;
         c
     })
 }
@@ -1929,9 +1958,12 @@ pub fn run_compare(check: &Check, c: &CompareCase) -> Result<(), Fail> {
     let want = info["identical"].as_bool().unwrap_or(false);
     check.bump(if want { "p3:judged:mpq:compare:identical" } else { "p3:judged:mpq:compare:differing" }, 1);
     // ground truth the generator knows (observation only: the comparator itself is C07's business)
-    let surely_differs = matches!(c.variant, 2 | 3 | 4 | 5) && b_spec != c.spec && c.filter.is_none();
+    let surely_differs = matches!(c.variant, 2 | 3 | 4 | 5) && b_spec != c.spec && c.filter.is_none() && !c.metadata_only;
     if surely_differs && want {
         check.bump("observation:compare_archives-calls-different-archives-identical", 1);
+        if std::env::var("C20_P3_DEBUG").is_ok() {
+            eprintln!("[p3 debug] compare_archives says identical: {} ; variant {} ; b = {}", ctx(), c.variant, b_spec.summary());
+        }
     }
     let out = &run.stdout;
     let said: Option<bool> = match fmt {
@@ -2444,6 +2476,9 @@ pub fn run_filetype(check: &Check, c: &FileTypeCase) -> Result<(), Fail> {
     }
     if !exit0 {
         check.bump("p3:cli-refuses-what-library-does:mpq:extract-type", 1);
+        if std::env::var("C20_P3_DEBUG").is_ok() {
+            eprintln!("[p3 debug] extract -f refused: {} ; selected {:?} of {:?}", ctx(), want, all);
+        }
         return Ok(());
     }
     check.bump("p3:judged:mpq:extract-type", 1);
@@ -2737,6 +2772,9 @@ pub fn filetype_strategy() -> impl proptest::strategy::Strategy<Value = FileType
             let n: Vec<char> = spec.files[pick_idx(fi, spec.files.len())].name.chars().collect();
             let k = 1 + pick_idx(cut, n.len().min(6));
             let t: String = n[n.len() - k.min(n.len())..].iter().collect();
+            // a value that starts with '-' is an option to the argument parser
+            let t = t.trim_start_matches('-').to_string();
+            let t = if t.is_empty() { ".dat".to_string() } else { t };
             if cut % 2 == 0 { t.to_uppercase() } else { t }
         };
         FileTypeCase { spec, file_type, preserve, order }
@@ -3068,6 +3106,9 @@ pub fn run_all(check: &Check, _tps: &[crate::part2::Template]) {
     use vcheck::engine::pt;
     let thorough = check.tier == vcheck::engine::Tier::Thorough;
     let opts = || pt::Opts { max_shrink_iters: 40, ..pt::Opts::default() };
+    // development aid: C20_P3_PARTS=compare,filetype restricts part 3 to the named case types
+    let only: Option<Vec<String>> = std::env::var("C20_P3_PARTS").ok().map(|s| s.split(',').map(|x| x.to_string()).collect());
+    let on = |p: &str| only.as_ref().map(|o| o.iter().any(|x| x == p)).unwrap_or(true);
     // every sub-command the binary announces has a stated way its content is (or is not) judged
     if let Ok(map) = crate::help::enumerate() {
         let mut rows = vec![];
@@ -3100,37 +3141,75 @@ pub fn run_all(check: &Check, _tps: &[crate::part2::Template]) {
     };
     let grid = conv_grid(thorough);
     check.set_extra("part3_conv_grid", json!(grid.len()));
-    guarded(check, "conv", &grid, |c| run_conv(check, c));
-    pt::run(check, "conv-random", check.tier.pick(96, 6000), opts(), conv_strategy, |c| json!({"part": "conv", "case": c}), |c| run_conv(check, c));
+    if on("conv") {
+        guarded(check, "conv", &grid, |c| run_conv(check, c));
+    }
+    if on("conv") {
+        pt::run(check, "conv-random", check.tier.pick(96, 6000), opts(), conv_strategy, |c| json!({"part": "conv", "case": c}), |c| run_conv(check, c));
+    }
     lap("conv");
     let grid = dbc_grid(thorough);
     check.set_extra("part3_dbc_grid", json!(grid.len()));
-    guarded(check, "dbc", &grid, |c| run_dbc(check, c));
-    pt::run(check, "dbc-random", check.tier.pick(64, 4000), opts(), dbc_strategy, |c| json!({"part": "dbc", "case": c}), |c| run_dbc(check, c));
+    if on("dbc") {
+        guarded(check, "dbc", &grid, |c| run_dbc(check, c));
+    }
+    if on("dbc") {
+        pt::run(check, "dbc-random", check.tier.pick(64, 4000), opts(), dbc_strategy, |c| json!({"part": "dbc", "case": c}), |c| run_dbc(check, c));
+    }
     for k in ["dbc:export", "dbc:list", "dbc:info", "dbc:discover", "dbc:analyze"] {
         if check.counter(&format!("p3:judged:{k}")) == 0 {
             crate::inc(check, &format!("part 3: no run of {k} exited 0 with a library result to compare with"));
         }
     }
     lap("dbc");
-    guarded(check, "rebuild", &rebuild_grid(thorough), |c| run_rebuild(check, c));
-    guarded(check, "compare", &compare_grid(thorough), |c| run_compare(check, c));
-    guarded(check, "validate", &validate_grid(thorough), |c| run_validate(check, c));
-    guarded(check, "tables", &tables_grid(), |c| run_tables(check, c));
-    guarded(check, "patch", &patch_grid(thorough), |c| run_patch(check, c));
-    guarded(check, "filetype", &filetype_grid(thorough), |c| run_filetype(check, c));
-    guarded(check, "tiles", &tiles_grid(thorough), |c| run_tiles(check, c));
-    pt::run(check, "rebuild-random", check.tier.pick(16, 1500), opts(), rebuild_strategy, |c| json!({"part": "rebuild", "case": c}), |c| run_rebuild(check, c));
-    pt::run(check, "compare-random", check.tier.pick(16, 1500), opts(), compare_strategy, |c| json!({"part": "compare", "case": c}), |c| run_compare(check, c));
-    pt::run(check, "validate-random", check.tier.pick(16, 1500), opts(), validate_strategy, |c| json!({"part": "validate", "case": c}), |c| run_validate(check, c));
-    pt::run(check, "tables-random", check.tier.pick(16, 800), opts(), tables_strategy, |c| json!({"part": "tables", "case": c}), |c| run_tables(check, c));
-    pt::run(check, "patch-random", check.tier.pick(16, 1500), opts(), patch_strategy, |c| json!({"part": "patch", "case": c}), |c| run_patch(check, c));
-    pt::run(check, "filetype-random", check.tier.pick(16, 800), opts(), filetype_strategy, |c| json!({"part": "filetype", "case": c}), |c| run_filetype(check, c));
+    if on("rebuild") {
+        guarded(check, "rebuild", &rebuild_grid(thorough), |c| run_rebuild(check, c));
+    }
+    if on("compare") {
+        guarded(check, "compare", &compare_grid(thorough), |c| run_compare(check, c));
+    }
+    if on("validate") {
+        guarded(check, "validate", &validate_grid(thorough), |c| run_validate(check, c));
+    }
+    if on("tables") {
+        guarded(check, "tables", &tables_grid(), |c| run_tables(check, c));
+    }
+    if on("patch") {
+        guarded(check, "patch", &patch_grid(thorough), |c| run_patch(check, c));
+    }
+    if on("filetype") {
+        guarded(check, "filetype", &filetype_grid(thorough), |c| run_filetype(check, c));
+    }
+    if on("tiles") {
+        guarded(check, "tiles", &tiles_grid(thorough), |c| run_tiles(check, c));
+    }
+    if on("rebuild") {
+        pt::run(check, "rebuild-random", check.tier.pick(16, 1000), opts(), rebuild_strategy, |c| json!({"part": "rebuild", "case": c}), |c| run_rebuild(check, c));
+    }
+    if on("compare") {
+        pt::run(check, "compare-random", check.tier.pick(16, 1000), opts(), compare_strategy, |c| json!({"part": "compare", "case": c}), |c| run_compare(check, c));
+    }
+    if on("validate") {
+        pt::run(check, "validate-random", check.tier.pick(16, 1000), opts(), validate_strategy, |c| json!({"part": "validate", "case": c}), |c| run_validate(check, c));
+    }
+    if on("tables") {
+        pt::run(check, "tables-random", check.tier.pick(16, 800), opts(), tables_strategy, |c| json!({"part": "tables", "case": c}), |c| run_tables(check, c));
+    }
+    if on("patch") {
+        pt::run(check, "patch-random", check.tier.pick(16, 1000), opts(), patch_strategy, |c| json!({"part": "patch", "case": c}), |c| run_patch(check, c));
+    }
+    if on("filetype") {
+        pt::run(check, "filetype-random", check.tier.pick(16, 800), opts(), filetype_strategy, |c| json!({"part": "filetype", "case": c}), |c| run_filetype(check, c));
+    }
     lap("mpq+tiles");
     let fg = flags_grid(thorough);
     check.set_extra("part3_flags_grid", json!(fg.len()));
-    guarded(check, "flags", &fg, |c| run_flags(check, c));
-    pt::run(check, "flags-random", check.tier.pick(48, 4000), opts(), flags_strategy, |c| json!({"part": "flags", "case": c}), |c| run_flags(check, c));
+    if on("flags") {
+        guarded(check, "flags", &fg, |c| run_flags(check, c));
+    }
+    if on("flags") {
+        pt::run(check, "flags-random", check.tier.pick(48, 3000), opts(), flags_strategy, |c| json!({"part": "flags", "case": c}), |c| run_flags(check, c));
+    }
     lap("flags");
     for fc in flag_cmds() {
         if fc.key.ends_with(":validate") && check.counter(&format!("p3:flags:failing:{}", fc.key)) == 0 {
@@ -3146,6 +3225,9 @@ pub fn run_all(check: &Check, _tps: &[crate::part2::Template]) {
         if check.counter(&format!("p3:judged-valid:{k}")) == 0 {
             crate::inc(check, &format!("part 3: no valid input of {k} exited 0 with a library result to compare with (content clause never judged)"));
         }
+    }
+    if on("conv") && check.counter("p3:judged:blp:convert:explicit-format") == 0 {
+        crate::inc(check, "part 3: no blp conversion with --input-format/--output-format was judged");
     }
     if check.counter("p3:over-same-size-result") == 0 {
         crate::inc(check, "part 3: no conversion ran over an earlier result of the same size");
